@@ -13,7 +13,7 @@
 //!   after the case by a drop guard, also on unwinding).
 use std::path::{Path, PathBuf};
 
-use super::{payloads, seed, P};
+use super::{payloads, P};
 use zverif::Tier;
 
 #[path = "p_compression.rs"]
@@ -144,10 +144,7 @@ pub fn all(tier: Tier) -> Vec<P> {
     v
 }
 
-#[allow(dead_code)]
-pub fn keep(_: &dyn Fn() -> Vec<zverif::mutate::Seed>) {}
-
-#[allow(dead_code)]
-pub fn mk(label: &str, bytes: Vec<u8>, n: usize) -> zverif::mutate::Seed {
-    seed(label, bytes, n)
+/// Run one ENCODER call; a panicking encoder (not C15's subject) just yields no seed.
+pub fn guard<T>(f: impl FnOnce() -> Option<T>) -> Option<T> {
+    zverif::util::catch(f).ok().flatten()
 }
